@@ -47,16 +47,18 @@ theorem C15_render (sty : Style) (U : UnicodeOps) (indent : Nat) (docs : List St
   erase_renderT sty U indent docs
 
 /-- … and the characters tagged "doc text" are exactly the entries as the printer writes them, in order
-(Swift strips trailing white space; TypeScript writes `*/` as `*\/`, the Python docstring writer `"""`
-as `\"\"\"` — the inserted backslashes count as doc text) -/
+(Swift strips trailing white space; TypeScript writes `*/` as `*\/`, the Python docstring writer `\` as
+`\\` and then `"""` as `\"\"\"` — the inserted backslashes count as doc text) -/
 theorem C15_tags (sty : Style) (U : UnicodeOps) (indent : Nat) (docs : List Str) :
     docChars (renderT sty U indent docs) = docs.flatMap (written sty U) :=
   docChars_renderT sty U indent docs
 
-/-- the escaping functions of the model are Rust's `str::replace` -/
+/-- the escaping functions of the model are Rust's `str::replace`; Python (since the `fix:` commit
+37d8a26): `v.replace('\\', "\\\\").replace("\"\"\"", "\\\"\\\"\\\"")` — backslashes doubled first -/
 theorem C15_escape_is_replace (c : Str) :
     TypeScript.escapeDoc c = Str.replaceSub c s%"*/" s%"*\\/" ∧
-    Python.escapeDoc c = Str.replaceSub c s%"\"\"\"" s%"\\\"\\\"\\\"" :=
+    Python.escapeDoc c =
+      Str.replaceSub (Str.replaceSub c s%"\\" s%"\\\\") s%"\"\"\"" s%"\\\"\\\"\\\"" :=
   ⟨ts_escape_eq_replace c, py_escape_eq_replace c⟩
 
 /-- splitting loses nothing but the line breaks -/
@@ -114,6 +116,11 @@ example : contained .pyDoc UnicodeOps.ascii 1
     [s%"\"\"\"\"\"", s%"\\\"\"\"", s%"\\\\\"\"\"\"", s%"say \"hi\"", s%"a\\", s%"x */\ny", s%"\"\"\"\\"] = true := by
   decide
 example : render .pyDoc UnicodeOps.ascii 0 [s%"a \"\"\" b"] = s%"\"\"\"\na \\\"\\\"\\\" b\n\"\"\"\n" := by decide
+-- backslashes are doubled (the witnesses of the repaired finding `python-docstring-escape`: `\N`, `C:\Users\x`)
+example : render .pyDoc UnicodeOps.ascii 0 [s%"\\N", s%"see C:\\Users\\x"] =
+    s%"\"\"\"\n\\\\N\nsee C:\\\\Users\\\\x\n\"\"\"\n" := by decide
+-- `\"""` is written `\\\"\"\"`: an escaped backslash, then three escaped quotes
+example : Python.escapeDoc s%"\\\"\"\"" = s%"\\\\\\\"\\\"\\\"" := by decide
 
 /-- the line-comment renderers themselves still rely on single-line input: handed a string with a line
 break they are not contained — which is why the statement is about the parser's entries -/
